@@ -51,17 +51,36 @@ fn gen_c03(rng: &mut Rng, thorough: bool) -> Case {
         max_threads: if thorough { 8 } else { 4 },
         ..Default::default()
     };
+    // One case in seven: messages that come from the scheduler - bursts of events due at the
+    // same time for the same capacity-1 mailbox (the scheduler's senders have to wait for space) -
+    // judged by the firing rules: every accepted occurrence delivered exactly once.
+    if rng.pct(14) {
+        let mut c = gen_c07(rng, thorough);
+        for n in c.nodes.iter_mut() {
+            n.cap = 1;
+        }
+        c.profile = "scheduled-conservation".into();
+        return c;
+    }
     let mut c = gen::gen_flow(rng, &o);
     c.profile = "conservation".into();
     c
 }
 fn check_c03(case: &Case, out: &Outcome, h: &Hist, _g: &mut Group) -> Vec<Violation> {
     let mut v = oracle::common(case, out, h);
+    if case.profile.starts_with("scheduled-conservation") {
+        let ag = agenda::build(case, h);
+        v.extend(time::periodic(case, h, &ag));
+        return v;
+    }
     v.extend(flow::conservation(case, h));
     v.extend(flow::all_ok(h));
     v
 }
-fn nt_c03(_c: &Case, out: &Outcome, h: &Hist) -> bool {
+fn nt_c03(c: &Case, out: &Outcome, h: &Hist) -> bool {
+    if c.profile.starts_with("scheduled-conservation") {
+        return probe(out, Probe::PushFull) > 0 && probe(out, Probe::SeqActions) > 0;
+    }
     probe(out, Probe::PushFull) > 0 && h.handlers.len() >= 3
 }
 
